@@ -2,5 +2,5 @@ CONSTANTS Lens <- LensThorough
           Firsts = {0, 1, 2, 16, 17, 75, 76, 128, 129, 130, 255}  Fills = {0, 171, 255}  AllOneByte = TRUE  SmallTotal = 90
           RawFull = 2  RawAlpha = {0, 1, 2, 3, 75, 76, 77, 78, 79, 80, 81, 96, 97, 99, 104, 255}  RawMax = 4  Export = TRUE
 SPECIFICATION Spec
-INVARIANTS TypeOK InvEncoder InvEnc InvTrunc InvAlt InvHuge InvParse
+INVARIANTS TypeOK InvEncoder InvEnc InvTrunc InvFetch InvAlt InvHuge InvParse
 CHECK_DEADLOCK FALSE
